@@ -46,11 +46,13 @@ func NewCompositeSequenceDFA(re *syntax.Regexp) *CompositeSequenceDFA {
 	// maxMatch=1, or \w{2,8}) requires counting characters per part, which
 	// the DFA doesn't support — fall back to CompositeSearcher backtracking.
 	for _, p := range parts {
-		if p.minMatch == 0 {
-			return nil // Star quantifiers need more complex handling
+		if p.minMatch != 1 {
+			// Star quantifiers need more complex handling; a minimum above one
+			// (cc{2,}) needs character counting just like a bounded maximum
+			return nil
 		}
-		if p.maxMatch > 0 {
-			return nil // Bounded max requires character counting
+		if p.maxMatch != 0 {
+			return nil // Bounded max requires character counting ({n,} has max -1)
 		}
 	}
 
@@ -419,10 +421,10 @@ func IsCompositeSequenceDFAPattern(re *syntax.Regexp) bool {
 
 	// Check all parts have minMatch >= 1 and maxMatch == 0 (unbounded)
 	for _, p := range parts {
-		if p.minMatch == 0 {
+		if p.minMatch != 1 {
 			return false
 		}
-		if p.maxMatch > 0 {
+		if p.maxMatch != 0 {
 			return false
 		}
 	}
